@@ -258,6 +258,14 @@ def check_start_of_day(ctx, zone, zid, W, d, cal, kp=""):
     except SkippedTimeError:
         if best is not None:
             ctx.V(f"C05:{kp}start-of-day-skipped", f"{zid} day {d}: at_start_of_day raised SkippedTimeError although instant {best} carries that date", case, None, best)
+        else:
+            # the LocalDate-side spelling must refuse a wholly skipped date as well
+            try:
+                r3 = date.at_start_of_day_in_zone(zone)
+                ctx.V(f"C05:{kp}at_start_of_day_in_zone-returned-for-skipped-day", f"{zid} day {d}: LocalDate.at_start_of_day_in_zone returned {gen.inst_ns(r3.to_instant())} ({r3.local_date_time!r}) although no instant carries that local date "
+                      f"(DateTimeZone.at_start_of_day raises SkippedTimeError)", case)
+            except SkippedTimeError:
+                ctx.count("wholly_skipped_days")
 
 
 def run_synthetic(ctx, n_zones):
